@@ -7,10 +7,11 @@ import Driver.OpsLearn
 import Driver.OpsScore
 import Driver.OpsSearch
 import Driver.OpsJT
+import Driver.OpsIndep
 open Lean PgmVerif PgmVerif.Drv
 
 def handlers : List (String → Json → Option (Except String Json)) :=
-  [handleFactor, handleCPD, handleGraph, handleHistory, handleLearn, handleScore, handleSearch, handleJT]
+  [handleFactor, handleCPD, handleGraph, handleHistory, handleLearn, handleScore, handleSearch, handleJT, handleIndep]
 
 def handle (op : String) (j : Json) : Except String Json :=
   match handlers.findSome? (fun h => h op j) with
